@@ -149,7 +149,9 @@ PROPS = {
         "rule": "scripts for the real connection task: after the handshake, block requests with index in/out of range, begin in "
                 "{0,1,16,len-1,len,len+1,2^31,2^32-6,2^32-1}, length in {0,1,6,10,16,64,16384,16385,2^32-1} against stored pieces of 64..20000 bytes; "
                 "manager replies load(present/absent file)/ignore; interleaved Choke/Unchoke broadcasts, repeated requests for the loaded piece, "
-                "switches to another piece; per event outputs compared with the model; the monitor P09 of the theorem evaluated on the "
+                "switches to another piece; per event outputs compared with the model; a quarter of the cases are mreq = the real manager's answer to "
+                "RecvRequest (Peer::handle_request) for random statuses, all 16 combinations of the four choke/interest flags and indices in and out "
+                "of range, compared with managerAnswersLoad; the monitor P09 of the theorem evaluated on the "
                 "implementation's trace; a panic of the task is a violation; distinct = distinct scripts",
         "assumptions": STD_ASSUME_PURE + ["the manager answers LoadAndSendPiece only for owned pieces of an unchoked peer (Peer::handle_request, modelled in the manager model)",
                                            "the piece file holds the verified bytes (C01)"],
